@@ -34,7 +34,7 @@ def run_case(case):
     out = J.Outcome()
     spec, cfg = case["spec"], case["cfg"]
     m = M.RefEnum(spec)
-    rnd = random.Random(case["seed"])
+    rnd = J.case_rng(case)
     sc = E.Script()
     idxs = C.pick_idxs(m, rnd)
     C.sc_minmax(sc, 0, m, cfg)
